@@ -133,6 +133,17 @@ def sweep_cases(rng, tmpdir):
     dut2 = sc2.random_dut()
     G.append(('vnacal-solve', pre, [('cal solve 0', ('EDOM',), False), ('cal add_calibration 0 %s 0' % h('early'), ('EINVAL',), False)], 'cal get_calibration_end 0',
               rest + ['cal solve 0', 'cal add_calibration 0 %s 0' % h('late'), sc2.apply_line(0, dut2), 'cal free 0']))
+    # "a rejected standard adds nothing": its first parameter is an unknown, its second handle is invalid; the exactly determined set that
+    # follows must still solve (one unknown too many would make it under-determined)
+    sc3 = calsim.Scenario(rng, 'T8', 2, 2, 2, fvec=[f1, f2]).begin()
+    pre3 = sc3.lines + ['cal make_unknown 0 2']
+    M22b = 'm 2 2 2 ' + ' '.join(z(0.1 * k) for k in range(8))
+    sc3.lines = []
+    for code in (calsim.SHORT, calsim.OPEN, calsim.MATCH):
+        sc3.add_reflect(1, code)
+    sc3.add_through(1, 2)
+    G.append(('vnacal-refused-add', pre3, [('cal add 0 double_reflect %s 3 12345 1 2' % M22b, ('EINVAL',), False), ('cal add 0 line %s 3 3 3 -7 1 2' % M22b, ('EINVAL',), False)], 'cal get_calibration_end 0',
+              sc3.lines + ['cal solve 0', 'cal add_calibration 0 %s 0' % h('ok'), 'cal free 0']))
     return G, {('vnacal', 0): (sc, dut), ('vnacal-solve', 2): (sc2, dut2)}
 
 
